@@ -27,6 +27,12 @@ FIXES = [
  ('C03-run-ending', 'simulator.py',
   "                self._simulator_time = self._run_until_time\n                self._replication_state = ReplicationState.ENDING\n                self._run_state = RunState.STOPPING\n                return;\n",
   "                if self._run_until_time > self._simulator_time:\n                    self._simulator_time = self._run_until_time\n                if self._simulator_time >= self._replication.end_sim_time:\n                    self._replication_state = ReplicationState.ENDING\n                self._run_state = RunState.STOPPING\n                return;\n"),
+ ('C02-run-clock', 'simulator.py',
+  "                self._simulator_time = self._run_until_time\n                self._replication_state = ReplicationState.ENDING\n",
+  "                if self._run_until_time > self._simulator_time:\n                    self._simulator_time = self._run_until_time\n                self._replication_state = ReplicationState.ENDING\n"),
+ ('C03-run-ending2', 'simulator.py',
+  "                    self._simulator_time = self._run_until_time\n                self._replication_state = ReplicationState.ENDING\n",
+  "                    self._simulator_time = self._run_until_time\n                if self._simulator_time >= self._replication.end_sim_time:\n                    self._replication_state = ReplicationState.ENDING\n"),
  # C04 bound written after admission
  ('C04-start-bound', 'simulator.py',
   "        if self._replication == None:\n            raise DSOLError(\"no replication details\")\n        self._run_until_time = self._replication.end_sim_time\n        self._run_until_including = True\n        self._start_impl()\n",
